@@ -296,12 +296,23 @@ def oracle_tokens(case, result):
     return None
 
 
+def target_applies(case):
+    """The target reading of the input line, or None when oracle B does not apply: not a statement the
+    generators can emit (see target_reading), or the indentation string is empty / not whitespace
+    (hypothesis ws_indent of C20_tokens: with an empty indentation string a line ending in `ab` + marker
+    followed by `cd` joins to `abcd`; both generators use blanks)."""
+    ind = eff(case)[1]
+    if ind == "" or ind.strip(WS) != "":
+        return None
+    return target_reading(case["line"], case["target"])
+
+
 def oracle_target(case, result):
     """Oracle B.  Returns None or a dict(kind=..., detail=...)."""
     target, line = case["target"], case["line"]
-    want = target_reading(line, target)
+    want = target_applies(case)
     if want is None:
-        return None                       # not a statement the generators can emit (see target_reading)
+        return None
     if result[0] == "exc":
         return {"kind": "target-exception", "exception": result[1],
                 "detail": "all string literals of the line are terminated, wrap_line raised"}
@@ -340,12 +351,8 @@ def quote_classes(case):
     """Syntactic patterns on which shlex.split(posix=False) and the target language disagree."""
     line, target = case["line"], case["target"]
     out = set()
-    try:
-        toks = shlex.split(line, posix=False)
-    except ValueError:
-        toks = None
-    # walk the line with shlex's own state machine to find where quotes sit
-    state, prev = " ", ""
+    # walk the line the way shlex does (posix=False) to find where quotes sit
+    state = " "
     for i, c in enumerate(line):
         if state == " ":
             if c in WS:
@@ -366,8 +373,6 @@ def quote_classes(case):
                     out.add("adjacent-quote")      # closing quote directly followed by a non-blank
             elif c == "\\" and target == "python":
                 out.add("escaped-quote")           # backslash inside a quoted string
-        prev = c
-    del prev, toks
     return out
 
 
@@ -498,7 +503,7 @@ def gen_cases(tier, seed):
     n_full = len(seqs)
     if tier == "quick":
         four = list(itertools.product(ALPHABET, repeat=4))
-        seqs += rng.sample(four, 100)
+        seqs += rng.sample(four, 50)
     n0 = len(cases)
     for s in seqs:
         line = " ".join(s)
@@ -511,7 +516,7 @@ def gen_cases(tier, seed):
                                 "widths 8-24 x {python, fortran}" % (full, ALPHABET, len(seqs) - n_full))
     # random long lines, random level / width / indentation
     n0 = len(cases)
-    nrand = 4000 if tier == "quick" else 60000
+    nrand = 3000 if tier == "quick" else 40000
     for _ in range(nrand):
         cases.append(dict(target=rng.choice(["python", "fortran"]), line=random_line(rng),
                           level=rng.randint(0, 6),
@@ -520,7 +525,7 @@ def gen_cases(tier, seed):
     dist["random_lines"] = len(cases) - n0
     # statements of the two target languages
     n0 = len(cases)
-    nst = 1500 if tier == "quick" else 20000
+    nst = 1200 if tier == "quick" else 20000
     for _ in range(nst):
         target = rng.choice(["python", "fortran"])
         cases.append(dict(target=target, line=statement(rng, target), level=rng.randint(0, 5),
@@ -760,7 +765,7 @@ def main(tier):
     failing, known_hits = {}, {}
     n_target_applicable = n_ast = 0
     for c, r in zip(cases, results):
-        if target_reading(c["line"], c["target"]) is not None:
+        if target_applies(c) is not None:
             n_target_applicable += 1
             if c["target"] == "python" and py_ast(c["line"]) is not None:
                 n_ast += 1
@@ -852,6 +857,8 @@ def main(tier):
         "target-level theorem (C20_layout_partial): only for lines on which the tokenizer in use agrees with the "
         "quote-aware tokenizer; refuted without that hypothesis for shlex (C20_layout_refuted_shlex)",
         "ast.parse / Fortran free-form lexing are not modelled in Coq: they are exercised by oracle B only",
+        "oracle B and C20_tokens need a non-empty whitespace indentation string (both generators use blanks); "
+        "no comment or continuation character outside string literals on the input line",
     ]
     return rep.finish("proof")
 
